@@ -267,6 +267,11 @@ package server
 //@   at-return requires ret0 != nil && !ret0.IsWithdraw && peer.isIBGPPeer() && !ret0.IsLocal() ==> ret0.GetSource().AS != ret0.GetSource().LocalAS || ret0.GetSource().RouteReflectorClient || peer.isRouteReflectorClient()
 // (route-server clients included: the per-client best-path filter does the same for them on the ordinary path, but
 // secondary routes and add-path candidates reach filterpath unfiltered)
+// "from a non-client iBGP peer to another non-client" - and the converse for what was sent before: when the route that
+// is now best may not be sent to this non-client, but the route it replaces was one this peer had been sent by
+// reflection (it came from a route-reflector client other than this peer), that one is withdrawn - the peer must not
+// keep a route the reflector no longer uses
+//@   at-return requires ignore && !peer.isRouteReflectorClient() && path != nil && !path.IsWithdraw && old != nil && old.GetSource().RouteReflectorClient && old.GetSource().Address.String() != peer.ID() ==> ret0 != nil
 //@   at-return requires ret0 != nil && !ret0.IsWithdraw && isASLoop(peer, ret0) ==> ret0.IsLocal() && peer.allowAsPathLoopLocal()
 //@   at-return requires ret0 != nil && !ret0.IsWithdraw && peer.IsFamilyEnabled(bgp.RF_RTC_UC) && ret0.GetFamily() != bgp.RF_RTC_UC ==> peer.interestedIn(ret0)
 
@@ -445,12 +450,20 @@ package server
 // can no longer be imported into the neighbour's VRF replaces one that could (and was advertised): the neighbour is
 // sent the withdrawal, the function does not just drop the change (vrf is in scope at the returns of the VRF block)
 //@ func (*BgpServer).prePolicyFilterpath
+//@   tag C17 C09
 //@   claims at-return at-call
 //@   at-return requires ok && old != nil && table.CanImportToVrf(vrf, old) ==> ret0 != nil
 // from C17 "re-advertised to that VRF's attached peers as a plain route": the withdrawals the filter chain derives from
 // the replaced route are plain too - the replaced route handed to the chain for a VRF neighbour is its plain form
 // (the global VPN route itself, withdrawn, would go out in the VPN family with the RD-qualified NLRI)
-//@   at-call ^filterpath(peer, path, old) requires peerVrf != "" && arg1 != nil && arg2 != nil ==> arg2 == old0.ToLocal()
+//@   at-call ^filterpath(peer, path, old) requires peerVrf != "" && !conf.AsPathOptions.State.ReplacePeerAs && arg1 != nil && arg2 != nil ==> arg2 == old0.ToLocal()
+// from C09 "AS_PATH ... rewritten ... as the peer type and per-peer options require" / "never advertised ... to an eBGP
+// peer whose AS is already in its AS_PATH": with replace-peer-as the loop check downstream sees what the peer is
+// sent - the rewritten path - for announcements and for withdrawals alike (a withdrawal that still carries the
+// peer's AS is dropped by that check and the peer keeps the route); and the AS that is replaced is the one the
+// session runs with (State), which is the configured one when there is one
+//@   at-call ^filterpath(peer, path, old) requires conf.AsPathOptions.State.ReplacePeerAs && arg1 != nil ==> called(ReplaceAS)
+//@   at-call path.ReplaceAS( requires arg2 == conf.State.PeerAs
 
 // =============================================================================================
 // C12 - graceful restart: the per-call parts (DESIGN.md 4 C12; every "exactly when <timer/event order>" clause
@@ -530,6 +543,10 @@ package server
 //@ func (*roaManager).HandleROAEvent
 //@   claims at-call
 //@   at-call time.AfterFunc( requires client.timer == nil || called(Stop)
+// "ROAs of a cache that stays away are purged when its lifetime runs out": the purge is for a lifetime timer that is
+// still armed - once End of Data has come in (which stops the timer and forgets it) a timeout event that was already
+// on its way is void, also when the cache came back with the same session id
+//@   at-call ^m.table.DeleteAll(client.host) requires client.timer != nil
 
 // =============================================================================================
 // C10 - "what is read back equals what was configured": the action type of an ext-community / large-community action
@@ -550,3 +567,25 @@ package server
 //@   at-return requires ret0 != nil && s.Actions.BgpActions.SetLargeCommunity.Options == oc.BGP_SET_COMMUNITY_OPTION_TYPE_ADD ==> ret0.Type == api.CommunityAction_TYPE_ADD
 //@   at-return requires ret0 != nil && s.Actions.BgpActions.SetLargeCommunity.Options == oc.BGP_SET_COMMUNITY_OPTION_TYPE_REMOVE ==> ret0.Type == api.CommunityAction_TYPE_REMOVE
 //@   at-return requires ret0 != nil && s.Actions.BgpActions.SetLargeCommunity.Options == oc.BGP_SET_COMMUNITY_OPTION_TYPE_REPLACE ==> ret0.Type == api.CommunityAction_TYPE_REPLACE
+
+// from C10 "what is read back equals what was configured": ListStatement reports the origin condition of a statement
+//@ props C10
+//@ func toStatementApi
+//@   claims at-return at-call
+//@   at-return requires called(ToOriginApi)
+//@   at-call ToOriginApi(s.Conditions requires arg0 == s.Conditions.BgpConditions.OriginEq
+
+// from C19 "every record the daemon emits parses back": a Peer Down Notification whose reason says that a
+// NOTIFICATION PDU follows (reasons 1 and 3, RFC 7854 4.9) is built with one
+//@ props C19
+//@ func bmpPeerDown
+//@   claims at-call
+//@   at-call bmp.NewBMPPeerDownNotification( requires (int(arg1) == bmp.BMP_PEER_DOWN_REASON_LOCAL_BGP_NOTIFICATION || int(arg1) == bmp.BMP_PEER_DOWN_REASON_REMOTE_BGP_NOTIFICATION) ==> arg2 != nil
+
+// from C16 "every route gets the verdict ...": the validation of a listing runs over the table the listing produced -
+// when the table could not be produced (a filter the table cannot evaluate) there is nothing to validate and the error
+// is reported, whether or not an RPKI cache is configured
+//@ props C16
+//@ func (*BgpServer).getAdjRib$1
+//@   claims at-call
+//@   at-call s.validateTable(rib) requires arg1 != nil
